@@ -138,7 +138,7 @@ static void runHistory(const Job& j) {
 	for (auto& s : j.script) { if (s.first == "EV") evs.push_back(s.second); else if (s.first == "SNAP") snapAt = atoi(s.second.c_str()); }
 	size_t ev = 0; int guard = 0; int stable = 0;
 	InterpreterState st = USCXML_UNDEF;
-	Session b; size_t evB = 0; bool resumed = false;
+	Session b; size_t evB = 0; bool resumed = false; std::string lateSer;
 	size_t pend = j.flag("pending1") ? 1 : j.flag("pending2") ? 2 : 0;  // events queued ahead (so snapshots see a non-empty external queue)
 	while (st != USCXML_FINISHED && guard++ < j.maxsteps) {
 		st = a.ip.step(0);
@@ -154,6 +154,7 @@ static void runHistory(const Job& j) {
 				std::string ser;
 				try { ser = a.ip.serialize(); } catch (Event e) { *out << "SERTHROW " << oneline(e.name) << "\n"; break; }
 				*out << "SER " << oneline(ser) << "\n";
+				if (j.flag("lateresume")) { lateSer = ser; resumed = true; evB = ev; continue; }   // resume only when the original is through: pending timers restart at deserialize()
 				if (j.flag("foreign")) {
 					// negative oracle: a state string must not be accepted by an interpreter for a different document
 					Job j2 = j; size_t pos = j2.xml.rfind("</scxml>");
@@ -175,6 +176,11 @@ static void runHistory(const Job& j) {
 	}
 	dumpEnd(a, j);
 	if (resumed) {
+		if (j.flag("lateresume")) {
+			make(b, j, "B ");
+			try { b.ip.deserialize(lateSer); } catch (Event e) { *out << "DESERTHROW " << oneline(e.name) << " " << oneline(e.data.asJSON()) << "\n"; return; }
+			*out << "B RESUMED " << b.mon.cfg() << "\n";
+		}
 		// drive the resumed interpreter with the same continuation
 		pfx = "B "; st = USCXML_UNDEF; guard = 0; ev = evB;
 		while (st != USCXML_FINISHED && guard++ < j.maxsteps) {
